@@ -627,6 +627,9 @@ class SimEnv:
         SimEnv._serial += 1
         self.base_tmpdir = self.tmpdir
         self.tmpdir = os.path.join(self.base_tmpdir, "env-%d" % SimEnv._serial)
+        # a directory of this name can only be the remains of an earlier forked run that was killed by its time
+        # limit before it could clean up (the serial number lives in the forked child and is lost with it)
+        real_shutil.rmtree(self.tmpdir, ignore_errors=True)
         os.mkdir(self.tmpdir)
         os.environ["TMPDIR"] = self.tmpdir
         os.environ.pop("TMP", None)
